@@ -108,6 +108,20 @@ fn main() {
                          int(DateTime::<U>::from(x).into_i64())]
                 })
             });
+            // X9: is_not_nat of the three time types, the Option<i64> view the other way round
+            em.case("exact", &format!("fn=flags unit={} class={}", uname(u), if x == NAT { "nat" } else { "valid" }),
+                &format!("DateTime<{}>({}) / Time({}) / TimeDelta::from({}): is_nat, is_not_nat; into_opt_i64(from_opt_i64(Some(x))); from_opt_i64(None)", uname(u), x, x, x),
+                || format!("(r16_flags {})", coq_z(x as i128)), || {
+                with_unit!(u, U => {
+                    let d = DateTime::<U>::new(x);
+                    let t = Time::from_i64(x);
+                    let td = TimeDelta::from(x);
+                    vec![boolc(d.is_nat()), boolc(d.is_not_nat()), boolc(t.is_nat()), boolc(t.is_not_nat()),
+                         boolc(td.is_nat()), boolc(td.is_not_nat()),
+                         opt_int(DateTime::<U>::from_opt_i64(Some(x)).into_opt_i64()),
+                         int(DateTime::<U>::from_opt_i64(None).into_i64())]
+                })
+            });
         }
     }
 
@@ -158,6 +172,33 @@ fn main() {
                     c.push(opt_int(d.time().map(|t| t.num_seconds_from_midnight() as i64)));
                     c.push(opt_int(d.time().map(|t| t.nanosecond() as i64)));
                     c
+                })
+            });
+            // X9: the TryFrom impl itself (as_cr tests NaT before calling it), the deprecated to_cr, and back
+            em.case("exact", &format!("fn=tryfrom unit={} class={} sign={}", uname(u), class, if x == NAT { "nat" } else if x < 0 { "neg" } else { "nonneg" }),
+                &format!("chrono::DateTime::<Utc>::try_from(DateTime<{}>({})) / to_cr / from(try_from)", uname(u), x),
+                || format!("(r16_tryfrom {} {})", uname(u), coq_z(x as i128)), || {
+                with_unit!(u, U => {
+                    let d = DateTime::<U>::new(x);
+                    g(|| {
+                        let o: Option<CrDateTime<Utc>> = CrDateTime::<Utc>::try_from(d).ok();
+                        #[allow(deprecated)]
+                        let o2 = d.to_cr();
+                        (o, o2)
+                    }, |(o, o2)| {
+                        let mut c = vec![];
+                        for v in [o, o2] {
+                            match v {
+                                Some(cr) => { c.push(int(cr.timestamp())); c.push(int(cr.timestamp_subsec_nanos() as i64)) }
+                                None => { c.push(Cell::Null); c.push(Cell::Null) }
+                            }
+                        }
+                        match o {
+                            Some(cr) => c.extend(gi(|| DateTime::<U>::from(cr).into_i64())),
+                            None => c.push(Cell::Null),
+                        }
+                        c
+                    })
                 })
             });
         }
